@@ -35,6 +35,7 @@ ASSUMPTIONS = [
 ]
 COMPONENTS = {'real': ['MoleculeIterator', 'Fragment / NlaIIIFragment / CHICFragment (__eq__, umi_eq, match_hash)', 'Molecule / NlaIIIMolecule / CHICMolecule (add_fragment, write_tags)'] + tc.TAGGER_REAL,
               'stub': tc.TAGGER_STUB}
+ISOLATE = True      # every case runs in a forked child of the worker: no repository state travels between cases
 REQUIRED_PROBES = ['api_run_with_ejection', 'cli_hamming0_with_near_umis', 'chain_with_separated_umis', 'api_run', 'preflagged_input', 'molecule_with_duplicates', 'overflow_molecule', 'umi_distance1_pair_present', 'chain_of_2plus_lifetimes', 'mode_switch_between_lifetimes', 'radius_gt0']
 
 
